@@ -183,7 +183,7 @@ func realClientCases() []realClientCase {
 				return c.Protocol, c.Start
 			},
 			Script: []rcStep{lmsg(func() protocol.Message { return localtxmonitor.NewMsgAcquire() })}},
-		{Name: "local-tx-monitor:QueryTimeout", ID: localtxmonitor.ProtocolId, Mode: ntc, State: "Busy",
+		{Name: "local-tx-monitor:QueryTimeout", ID: localtxmonitor.ProtocolId, Mode: ntc, State: "BusyNextTx",
 			Make: func(o protocol.ProtocolOptions, T time.Duration) (*protocol.Protocol, func()) {
 				cfg := localtxmonitor.NewConfig(localtxmonitor.WithAcquireTimeout(c14Far), localtxmonitor.WithQueryTimeout(T))
 				c := localtxmonitor.NewClient(o, &cfg)
